@@ -365,9 +365,22 @@ def check(ctx):
                f"the reference trajectory itself is modified by {q} at "
                f"{e.where} (only down-sampling, motion filtering and "
                f"projection may touch it)", key=f"C15.4:ref-touched:{q}")
+    def aliases(t, obj, depth=0):
+        if t is obj:
+            return True
+        if depth > 12 or not isinstance(t, T):
+            return False
+        if t.op in ("attr", "sub", "elem", "upd", "mut"):
+            return aliases(t.args[0], obj, depth + 1)
+        if t.op == "ite":
+            return aliases(t.args[1], obj, depth + 1) or \
+                aliases(t.args[2], obj, depth + 1)
+        if t.op in ("loopvar",):
+            return aliases(t.args[2], obj, depth + 1)
+        return False
     for e in res.of_kind("augassign", "setattr", "setitem"):
         tgt = e.data.get("target") or e.data.get("base")
-        if tgt is not None and any(x is ref_traj for x in tgt.walk()):
+        if tgt is not None and aliases(tgt, ref_traj):
             ctx.ob("C15.4", e, False,
                    f"the reference is modified in place at {e.where} "
                    f"({e.kind})", key=f"C15.4:ref-inplace:{e.kind}")
